@@ -712,7 +712,7 @@ def install(ctx):
         if not isinstance(fn, (str, os.PathLike)):
             return
         ext = os.path.splitext(str(fn))[1].lower()
-        if ext in READER:
+        if ext in READER and os.path.exists(str(fn)):      # (a URL or a missing file never reaches a reader)
             c.check()
             if _reader_calls != [READER[ext]]:
                 c.violation("load_score-wrong-reader-for-extension",
